@@ -140,13 +140,13 @@ def substitute_function(fn) -> int:
             if isinstance(n, ast.Assign):
                 for t in n.targets:
                     for x in ast.walk(t):
-                        if isinstance(x, ast.Name):
+                        if isinstance(x, ast.Name) and isinstance(x.ctx, ast.Store):
                             counts[x.id] = counts.get(x.id, 0) + 1
                 if len(n.targets) == 1 and isinstance(n.targets[0], ast.Name) and _is_path(n.value):
                     cand[n.targets[0].id] = n
             elif isinstance(n, (ast.AugAssign, ast.AnnAssign, ast.For, ast.AsyncFor, ast.comprehension, ast.NamedExpr)):
                 for x in ast.walk(n.target):
-                    if isinstance(x, ast.Name):
+                    if isinstance(x, ast.Name) and isinstance(x.ctx, (ast.Store, ast.Del)):
                         counts[x.id] = counts.get(x.id, 0) + 2
             elif isinstance(n, (ast.With, ast.AsyncWith)):
                 for it in n.items:
